@@ -485,30 +485,52 @@ func rulePayloadAgree(c *Ctx) {
 			if _, f := loadedField(ta.X); f != fPayload {
 				continue
 			}
-			flag := ""
-			for _, d := range fn.Blocks {
+			// the flag tests whose true edge every way into the assertion passes (nearest test on each way): one test in
+			// the common case, several for `case hasFlag(HASH), hasFlag(SET):` where one Go type serves both
+			flagTest := func(d *ssa.BasicBlock) string {
 				ifi, ok := d.Instrs[len(d.Instrs)-1].(*ssa.If)
 				if !ok {
-					continue
+					return ""
 				}
 				call, ok := ifi.Cond.(*ssa.Call)
 				if !ok || len(call.Call.Args) != 2 {
-					continue
+					return ""
 				}
 				if _, f := loadedField(call.Call.Args[0]); f != fFlags {
-					continue
+					return ""
 				}
-				n := constName(call.Call.Args[1])
-				if n == "" {
-					continue
+				return constName(call.Call.Args[1])
+			}
+			flagSet := map[string]bool{}
+			unflaggedWay := false
+			seenB := map[*ssa.BasicBlock]bool{}
+			var back func(b *ssa.BasicBlock)
+			back = func(b *ssa.BasicBlock) {
+				if seenB[b] {
+					return
 				}
-				s := d.Succs[0]
-				if len(s.Preds) == 1 && (s == ta.Block() || s.Dominates(ta.Block())) {
-					flag = n // innermost wins (later blocks overwrite)
+				seenB[b] = true
+				if len(b.Preds) == 0 {
+					unflaggedWay = true
+					return
+				}
+				for _, d := range b.Preds {
+					if n := flagTest(d); n != "" && d.Succs[0] == b && d.Succs[1] != b {
+						flagSet[n] = true
+						continue
+					}
+					back(d)
 				}
 			}
+			back(ta.Block())
+			var flags []string
+			for n := range flagSet {
+				flags = append(flags, n)
+			}
+			sort.Strings(flags)
+			flag := strings.Join(flags, "+")
 			T := typeString(ta.AssertedType)
-			if flag == "" {
+			if flag == "" || unflaggedWay {
 				ord["unflagged"]++
 				key := fmt.Sprintf("%s:unflagged .(%s)#%d", fnName(fn), T, ord["unflagged"])
 				c.S.Bad("R-payload-agree", key, c.Pos(ta.Pos()), fmt.Sprintf("%s asserts payload.(%s) without a dominating test of the key's type flag: hashes and sets share one Go type, so the type of the key is not established (set commands would work on hashes and vice versa)", fnName(fn), T))
@@ -518,6 +540,20 @@ func rulePayloadAgree(c *Ctx) {
 			key := fmt.Sprintf("%s:%s", fnName(fn), flag)
 			if ord[flag] > 1 {
 				key += fmt.Sprintf("#%d", ord[flag])
+			}
+			if len(flags) > 1 {
+				allAgree := true
+				for _, n := range flags {
+					if !canon[n][T] {
+						allAgree = false
+					}
+				}
+				if allAgree {
+					c.S.OK("R-payload-agree", key, c.Pos(ta.Pos()), "asserts "+T+", the type producers store for each of "+flag)
+				} else {
+					c.S.Bad("R-payload-agree", key, c.Pos(ta.Pos()), fmt.Sprintf("%s asserts payload.(%s) on a branch shared by %s, but producers do not store that type for all of them: the assertion panics for keys of the other type", fnName(fn), T, flag))
+				}
+				continue
 			}
 			if canon[flag][T] {
 				c.S.OK("R-payload-agree", key, c.Pos(ta.Pos()), "asserts "+T+", the type producers store for "+flag)
@@ -540,16 +576,71 @@ func ruleCtorAgree(c *Ctx) {
 	p := c.Prog
 	need := []string{"listItem.prev", "listItem.next", "listItem.element", "storeList.head", "storeList.tail", "storeList.count"}
 	n := 0
-	for _, fn := range c.SrcFuncs() {
-		// allocates a listItem inside a loop?
-		inLoop := false
+	// functions that allocate a list node, directly or in a static callee (helpers such as pushBack)
+	var allocsNode func(fn *ssa.Function, depth int) bool
+	allocsNode = func(fn *ssa.Function, depth int) bool {
+		if fn == nil || fn.Blocks == nil || depth > 3 {
+			return false
+		}
 		for _, in := range instrsOf(fn) {
-			al, ok := in.(*ssa.Alloc)
-			if !ok || !p.isPkgType(al.Type(), "listItem") {
-				continue
+			if al, ok := in.(*ssa.Alloc); ok && p.isPkgType(al.Type(), "listItem") {
+				return true
 			}
-			if reachableFrom(al.Block(), nil)[al.Block()] && blockInCycle(al.Block()) {
-				inLoop = true
+			if call, ok := in.(ssa.CallInstruction); ok {
+				if g := call.Common().StaticCallee(); g != nil && p.InPkg(g) && g != fn && allocsNode(g, depth+1) {
+					return true
+				}
+			}
+		}
+		return false
+	}
+	var storesOf func(fn *ssa.Function, have map[string]bool, depth int)
+	storesOf = func(fn *ssa.Function, have map[string]bool, depth int) {
+		if fn == nil || fn.Blocks == nil || depth > 3 {
+			return
+		}
+		for _, in := range instrsOf(fn) {
+			if st, ok := in.(*ssa.Store); ok {
+				if fa, ok := st.Addr.(*ssa.FieldAddr); ok {
+					f := fieldOf(fa)
+					have[p.ownerName(f)+"."+f.Name()] = true
+				}
+			}
+			if call, ok := in.(ssa.CallInstruction); ok && depth < 3 {
+				if g := call.Common().StaticCallee(); g != nil && p.InPkg(g) && g != fn {
+					// only helpers that work on the list (take a list or a node)
+					takes := false
+					for _, a := range call.Common().Args {
+						if p.isPkgType(a.Type(), "listItem") || p.isPkgType(a.Type(), "storeList") {
+							takes = true
+						}
+					}
+					if takes {
+						storesOf(g, have, depth+1)
+					}
+				}
+			}
+		}
+	}
+	for _, fn := range c.SrcFuncs() {
+		// allocates a listItem inside a loop — itself, or (when it also makes the list header) through a helper it calls in the loop?
+		inLoop := false
+		makesHeader := false
+		for _, in := range instrsOf(fn) {
+			if al, ok := in.(*ssa.Alloc); ok && p.isPkgType(al.Type(), "storeList") {
+				makesHeader = true
+			}
+		}
+		for _, in := range instrsOf(fn) {
+			if al, ok := in.(*ssa.Alloc); ok && p.isPkgType(al.Type(), "listItem") {
+				if reachableFrom(al.Block(), nil)[al.Block()] && blockInCycle(al.Block()) {
+					inLoop = true
+				}
+			}
+			if call, ok := in.(ssa.CallInstruction); ok && makesHeader && blockInCycle(in.Block()) {
+				if g := call.Common().StaticCallee(); g != nil && p.InPkg(g) && g != fn && allocsNode(g, 1) {
+					inLoop = true
+				}
 			}
 		}
 		if !inLoop {
@@ -557,16 +648,7 @@ func ruleCtorAgree(c *Ctx) {
 		}
 		n++
 		have := map[string]bool{}
-		for _, in := range instrsOf(fn) {
-			st, ok := in.(*ssa.Store)
-			if !ok {
-				continue
-			}
-			if fa, ok := st.Addr.(*ssa.FieldAddr); ok {
-				f := fieldOf(fa)
-				have[p.ownerName(f)+"."+f.Name()] = true
-			}
-		}
+		storesOf(fn, have, 0)
 		var missing []string
 		for _, f := range need {
 			if !have[f] {
@@ -607,19 +689,54 @@ func ruleMsetnxPhase(c *Ctx) {
 	}
 	lm := c.M.Locks()
 	n := 0
+	// key creators and existence checks, directly or through a helper (installStringUnlocked → newStoreKeyUnlocked)
+	var creator func(g *ssa.Function, d int) bool
+	creator = func(g *ssa.Function, d int) bool {
+		if g == nil || g.Blocks == nil || d > 3 || !c.InPkg(g) {
+			return false
+		}
+		res := g.Signature.Results()
+		if res.Len() == 1 && c.isPkgType(res.At(0).Type(), "storeKey") && returnsFreshAlloc(g) {
+			return true
+		}
+		for _, in := range instrsOf(g) {
+			if call, ok := in.(*ssa.Call); ok && call.Call.StaticCallee() != g && creator(call.Call.StaticCallee(), d+1) {
+				return true
+			}
+		}
+		return false
+	}
+	var lookup func(g *ssa.Function, d int) bool
+	lookup = func(g *ssa.Function, d int) bool {
+		if g == nil || g.Blocks == nil || d > 2 || !c.InPkg(g) || creator(g, 0) {
+			return false
+		}
+		res := g.Signature.Results()
+		if res.Len() == 2 && c.isPkgType(res.At(0).Type(), "storeKey") {
+			return true
+		}
+		if d == 0 && !(res.Len() == 1 && types.Identical(res.At(0).Type(), types.Typ[types.Bool])) {
+			return false // a helper counts as a check only when it answers yes/no
+		}
+		for _, in := range instrsOf(g) {
+			if call, ok := in.(*ssa.Call); ok && call.Call.StaticCallee() != g && lookup(call.Call.StaticCallee(), d+1) {
+				return true
+			}
+		}
+		return false
+	}
 	for fn := range c.M.Reach(hs["msetnx"]) {
 		var lookups, creates []*ssa.Call
 		for _, in := range instrsOf(fn) {
 			call, ok := in.(*ssa.Call)
-			if !ok || call.Call.StaticCallee() == nil {
+			if !ok || call.Call.StaticCallee() == nil || !blockInCycle(call.Block()) {
 				continue
 			}
 			g := call.Call.StaticCallee()
-			res := g.Signature.Results()
-			if res.Len() == 2 && c.isPkgType(res.At(0).Type(), "storeKey") && blockInCycle(call.Block()) {
+			if lookup(g, 0) {
 				lookups = append(lookups, call)
 			}
-			if res.Len() == 1 && c.isPkgType(res.At(0).Type(), "storeKey") && returnsFreshAlloc(g) && blockInCycle(call.Block()) {
+			if creator(g, 0) {
 				creates = append(creates, call)
 			}
 		}
